@@ -81,7 +81,7 @@ NOT_APPLICABLE = [{"property_id": "C%02d" % i, "reason": _PENDING} for i in rang
 CHECKS["C04"] = {
     "test": "TestC04",
     "quick": {"shards": 8, "checks": 6000},
-    "thorough": {"shards": 16, "checks": 60000},
+    "thorough": {"shards": 16, "checks": 60000, "fuzz": {"target": "FuzzC04", "seconds": 240}},
     "rule": "a small real forest (0..6 generated blocks) gives the state for Pollard.Verify, MapPollard.Verify and VerifyPartialProof (generated TotalRows, "
             "full/partial, remember on/off); Verify and Stump.Update get that stump, or the same forest embedded at the low end of a stump with up to 2^62+.. "
             "leaves (fresh roots for the high trees), or a synthetic stump (NumLeaves from boundary constants / random 64-bit values <= 2^63, roots from "
@@ -106,7 +106,7 @@ NOT_APPLICABLE[:] = [e for e in NOT_APPLICABLE if e["property_id"] not in CHECKS
 CHECKS["C03"] = {
     "test": "TestC03",
     "quick": {"shards": 8, "checks": 6000},
-    "thorough": {"shards": 16, "checks": 60000},
+    "thorough": {"shards": 16, "checks": 60000, "fuzz": {"target": "FuzzC03", "seconds": 240}},
     "rule": "two parts. Enumerated (complete per state, states dealt over shards): for every forest with N<=4 leaves and ANY dead set, and selected N in 5..6 "
             "(thorough ..8): every tuple of k<=2 (thorough 3 for N<=4) targets in [0,maxPos], hashes and 0..3 proof hashes (fewer where the per-state cap "
             "of 1.5M/12M tuples would be passed) from {every true node hash, one fresh value}, given to Verify and Pollard.Verify. Generated (rapid): states of "
